@@ -116,7 +116,7 @@ CFG = dict(
                "exact run; for the other accumulator families (mean, var, skew, kurt, ewm, wma, cross sums, trend) the rounding "
                "bound is still only the tolerance of the two-history runs. Tied to the code by relational runs on the implementation (all "
                "cuts, bit for bit; two histories) plus the model run on every prefix.",
-    level_note="Trusted: Coq kernel (+ Reals axioms for the window-only statements); the models of the rolling families; DESIGN 5.2 "
+    level_note="Trusted: Coq kernel (+ Reals axioms for the window-only statements; + Classical_Prop.classic and the standard library's FloatAxioms.{Prim2SF_valid, SF2Prim_Prim2SF, Prim2SF_SF2Prim, add_spec, sub_spec, opp_spec, abs_spec, eqb_spec} under the binary64 rounding theorems of the rolling sum, which go through Flocq's IEEE754.PrimFloat bridge); the models of the rolling families; DESIGN 5.2 "
                "(finite bounded histories: an infinite or overflowing history poisons the accumulators forever) and 5.3 (omitted "
                "min_periods of the extrema/rank family only for len >= w).",
     trusted=["Reals axioms of the Coq standard library under the window-only theorems",
